@@ -13,7 +13,8 @@ def hx(b):
 
 
 class Gen:
-    def __init__(self, model, rng, profile='mixed', ntok=2):
+    def __init__(self, model, rng, profile='mixed', ntok=2, nocopy=False):
+        self.nocopy = nocopy
         self.m = model
         self.r = rng
         self.profile = profile
@@ -266,6 +267,8 @@ class Gen:
             items.append('2=b:%d' % self.r.randint(0, 1))
         if self.r.random() < 0.1:
             items.append(self.r.choice(['0x11=x:00', '0x100=u:31', '0x170=b:0', '0x171=b:1']))
+        if self.nocopy:
+            return
         r = self.emit('copy %s %s %s' % (s, o, ' '.join(items)))
         if r.get('h'):
             k = self.sessions.get(s, (0, True))[0]
@@ -366,7 +369,8 @@ class Gen:
                 return
             self.emit('getattr %s %s 3:16 0x11:16 2:1' % (use, n))
             self.emit('setattr %s %s 3=x:%s' % (use, n, self.new_label()))
-            self.emit('copy %s %s 3=x:%s' % (use, n, self.new_label()))
+            if not self.nocopy:
+                self.emit('copy %s %s 3=x:%s' % (use, n, self.new_label()))
             self.emit('%s %s 0x1081 %s' % (self.r.choice(['encinit', 'decinit', 'signinit', 'verifyinit']), use, n))
             self.emit('objsize %s %s' % (use, n))
         for n in names:
